@@ -182,8 +182,16 @@ Variable hf : key -> N.
 
 Definition okf {A} (r : res A) : Prop := match r with Ok _ => True | Err OutOfFuel => True | Err _ => False end.
 
+(* how the state after hashtable_iter_next is obtained: an optional reference taken on the node found, then the
+   release of the node the iterator was parked on *)
+Definition next_shape (s : hstate) (hi : hiter) (s' : hstate) : Prop :=
+  exists s1 Pmid,
+    (s1 = s \/ exists id n, In id (linked s) /\ deref (h_heap s) id = Ok n /\ s1 = set_heap s (store (h_heap s) id (bumpn n))) /\
+    GoodP s1 (hi :: Pmid) /\
+    match hi_node hi with Some cur => exists ns, node_deref s1 cur = Ok (s', ns) | None => s' = s1 end.
+
 Lemma iter_next_safe : forall s P hi, GoodP s (hi :: P) ->
-  exists s' hi' r ns, h_iter_next v_fixed s hi = Ok (s', hi', r, ns) /\ GoodP s' (hi' :: P) /\ same_ctl s s'.
+  exists s' hi' r ns, h_iter_next v_fixed s hi = Ok (s', hi', r, ns) /\ GoodP s' (hi' :: P) /\ same_ctl s s' /\ next_shape s hi s'.
 Proof.
   intros s P hi G. unfold h_iter_next.
   set (b0 := hi_bucket hi).
@@ -220,15 +228,19 @@ Proof.
     + destruct (goodp_unpark _ _ hi cur G1 Hc) as [s2 [ns [U1 [U2 [U3 U4]]]]]. rewrite U1. simpl.
       assert (Hin2 : In id (bucket s2 b')) by (apply (p_iter _ _ U2 {| hi_node := Some id; hi_bucket := b' |} id); auto; left; auto).
       destruct (p_node _ _ U2 id (in_bucket_linked _ _ _ Hin2)) as [n2 [M1 _]]. rewrite M1. simpl.
-      eexists _, _, _, _. split; [reflexivity|]. split; [auto|exact U3].
+      eexists _, _, _, _. split; [reflexivity|]. split; [auto|split; [exact U3|]].
+      exists (set_heap s (store (h_heap s) id (bumpn n))), ({| hi_node := Some id; hi_bucket := b' |} :: P). split; [right; exists id, n; split; [eapply in_bucket_linked; eauto|auto]|]. split; [exact G1|]. rewrite Hc. eauto.
     + assert (G2 : GoodP (set_heap s (store (h_heap s) id (bumpn n))) ({| hi_node := Some id; hi_bucket := b' |} :: P)).
       { eapply goodp_none_del; eauto. }
       simpl. rewrite deref_store by (eapply deref_lt; eauto). rewrite Nat.eqb_refl. simpl.
-      eexists _, _, _, _. split; [reflexivity|]. split; [auto|repeat split].
+      eexists _, _, _, _. split; [reflexivity|]. split; [auto|split; [repeat split|]].
+      exists (set_heap s (store (h_heap s) id (bumpn n))), ({| hi_node := Some id; hi_bucket := b' |} :: P). split; [right; exists id, n; split; [eapply in_bucket_linked; eauto|auto]|]. split; [exact G1|]. rewrite Hc. reflexivity.
   - destruct (hi_node hi) as [cur|] eqn:Hc.
     + destruct (goodp_unpark _ _ hi cur G Hc) as [s2 [ns [U1 [U2 [U3 U4]]]]]. simpl. rewrite U1. simpl.
-      eexists _, _, _, _. split; [reflexivity|]. split; [apply goodp_none_add; auto|exact U3].
-    + simpl. eexists _, _, _, _. split; [reflexivity|]. split; [apply goodp_none_add; eapply goodp_none_del; eauto|repeat split].
+      eexists _, _, _, _. split; [reflexivity|]. split; [apply goodp_none_add; auto|split; [exact U3|]].
+      exists s, P. split; [left; auto|]. split; [exact G|]. rewrite Hc. eauto.
+    + simpl. eexists _, _, _, _. split; [reflexivity|]. split; [apply goodp_none_add; eapply goodp_none_del; eauto|split; [repeat split|]].
+      exists s, P. split; [left; auto|]. split; [exact G|]. rewrite Hc. reflexivity.
 Qed.
 
 Lemma iter_free_safe : forall s P hi, GoodP s (hi :: P) ->
@@ -247,7 +259,7 @@ Lemma foreach_loop_safe : forall fuel s P hi stop calls acc nacc, GoodP s (hi ::
   end.
 Proof.
   induction fuel; simpl; intros; auto.
-  destruct (iter_next_safe s P hi H) as [s1 [hi1 [r [ns [E [G1 C1]]]]]]. rewrite E. simpl.
+  destruct (iter_next_safe s P hi H) as [s1 [hi1 [r [ns [E [G1 [C1 _]]]]]]]. rewrite E. simpl.
   destruct r as [e|]; auto.
   destruct (negb (Nat.eqb stop 0) && Nat.leb stop (S calls)); auto.
   specialize (IHfuel s1 P hi1 stop (S calls) (e :: acc) (nacc ++ ns) G1).
@@ -557,7 +569,7 @@ Lemma foreach_loop_total : forall fuel s P hi stop calls acc nacc, GoodP s (hi :
   exists s' hi' l ns, foreach_loop v_fixed fuel s hi stop calls acc nacc = Ok (s', hi', l, ns).
 Proof.
   induction fuel; simpl; intros. lia.
-  destruct (iter_next_safe s P hi H) as [s1 [hi1 [r [ns [E [G1 C1]]]]]]. rewrite E. simpl.
+  destruct (iter_next_safe s P hi H) as [s1 [hi1 [r [ns [E [G1 [C1 _]]]]]]]. rewrite E. simpl.
   destruct r as [e|]; eauto.
   destruct (negb (Nat.eqb stop 0) && Nat.leb stop (S calls)); eauto.
   apply IHfuel with (P := P); auto. generalize (iter_next_dec s P hi s1 hi1 e ns H E). lia.
@@ -667,7 +679,7 @@ Proof.
       { generalize (t_ids _ T). rewrite Q1, map_app. simpl. intro ND. apply nodup_app_r in ND. inversion ND; auto. }
       assert (PM : Permutation (its s) (hi :: map snd l1 ++ map snd l2)).
       { unfold its. rewrite Q1, map_app. simpl. apply Permutation_sym. apply Permutation_middle. }
-      destruct (iter_next_safe s (map snd l1 ++ map snd l2) hi (goodp_perm _ _ _ PM (t_good _ T))) as [s1 [hi1 [r [ns [E [G [C1 [C2 C3]]]]]]]].
+      destruct (iter_next_safe s (map snd l1 ++ map snd l2) hi (goodp_perm _ _ _ PM (t_good _ T))) as [s1 [hi1 [r [ns [E [G [[C1 [C2 C3]] _]]]]]]].
       rewrite E. simpl. right. rewrite C1, Q1. destruct (iter_set_split l1 l2 it hi hi1 Q2 Q3) as [S1 _]. rewrite S1.
       constructor; simpl.
       * unfold its. simpl. rewrite map_app. simpl. eapply goodp_ctl. 3:{ eapply goodp_perm. apply Permutation_middle. exact G. } reflexivity. reflexivity.
@@ -717,7 +729,7 @@ Proof.
       { generalize (t_ids _ T). rewrite Q1, map_app. simpl. intro ND. apply nodup_app_r in ND. inversion ND; auto. }
       assert (PM : Permutation (its s) (hi :: map snd l1 ++ map snd l2)).
       { unfold its. rewrite Q1, map_app. simpl. apply Permutation_sym. apply Permutation_middle. }
-      destruct (iter_next_safe s (map snd l1 ++ map snd l2) hi (goodp_perm _ _ _ PM (t_good _ T))) as [s1 [hi1 [r [ns [E [G [C1 [C2 C3]]]]]]]].
+      destruct (iter_next_safe s (map snd l1 ++ map snd l2) hi (goodp_perm _ _ _ PM (t_good _ T))) as [s1 [hi1 [r [ns [E [G [[C1 [C2 C3]] _]]]]]]].
       rewrite E. simpl. eexists _, _, _; split; [reflexivity|]. right. rewrite C1, Q1. destruct (iter_set_split l1 l2 it hi hi1 Q2 Q3) as [S1 _]. rewrite S1.
       constructor; simpl.
       * unfold its. simpl. rewrite map_app. simpl. eapply goodp_ctl. 3:{ eapply goodp_perm. apply Permutation_middle. exact G. } reflexivity. reflexivity.
